@@ -657,8 +657,11 @@ def rule_R5(ctx, prj):
                     (sinks <= {"key", "str()"} and "state_set_id" in fi.name)
                 if ok:
                     ctx.ok("R5", fi.site(c), f"{fi.local}: id() used as a key / label")
-                else:
+                elif sinks & {"return", "str()"} or any(x.startswith("self.") for x in sinks):
                     ctx.viol("R5", f"{fi.local}/id()", fi.site(c), "an object address (id()) flows into a result: differs between runs")
+                else:
+                    # where the address ends up is not one of the recognised flows: nothing recognised, nothing reported
+                    ctx.info(f"R5: {fi.local}: id() flows to {sorted(sinks)} - not a recognised result flow, not judged")
             if nm == "hash" and fi.name != "__hash__":
                 ctx.viol("R5", f"{fi.local}/hash()", fi.site(c), "hash() of a str depends on PYTHONHASHSEED and is used outside __hash__")
 
@@ -713,6 +716,24 @@ def _sinks(fi: FuncInfo, node, depth=0) -> set:
             return {"return"}
         if isinstance(par, ast.Expr):
             return set()
+        if isinstance(par, ast.Tuple):
+            # `a, key = m, id(x)`: the element goes to the target at the same position
+            gp = fi.parents.get(par)
+            if isinstance(gp, ast.Assign) and len(gp.targets) == 1 and isinstance(gp.targets[0], ast.Tuple) and len(gp.targets[0].elts) == len(par.elts):
+                t = gp.targets[0].elts[par.elts.index(cur)]
+                if isinstance(t, ast.Name):
+                    return _uses_sinks(fi, t.id, depth)
+            if _is_key_use(fi, par):
+                return {"key"}
+            return {"other:Tuple"}
+        if isinstance(par, ast.Lambda) and par.body is cur:
+            # the value of a key function (sorted / min / max / groupby): compared, never shown
+            gp = fi.parents.get(par)
+            if isinstance(gp, ast.keyword) and gp.arg == "key":
+                return {"key"}
+            if isinstance(gp, ast.Call) and (attr_chain(gp.func) or "").split(".")[-1] == "groupby" and len(gp.args) == 2 and gp.args[1] is par:
+                return {"key"}
+            return {"other:Lambda"}
         return {"other:" + type(par).__name__}
 
 
